@@ -34,7 +34,7 @@ def main():
                 "evidence_file": f"/verif/evidence/{pid}.json",
                 "replay_cmd_template": f"./check {pid} --replay {{path}}",
                 "engine": "coq-model",
-                "level_claimed": {"category": "proof", "text": m.LEVEL_TEXT, "design_ref": f"DESIGN.md section 8 ({pid})"},
+                "level_claimed": {"category": "proof", "text": m.LEVEL_TEXT, "design_ref": f"DESIGN.md section 7 ({pid})"},
                 "level_note": LEVEL_NOTE + " " + getattr(m, "LEVEL_NOTE_EXTRA", ""),
                 "technique": m.TECHNIQUE,
             }
